@@ -53,6 +53,7 @@ def gen_program(r, idx):
     kwdefaults = [r.choice(POOL) for _ in range(nkw)]
     return dict(npos=npos, ndef=ndef, varargs=varargs, nkw=nkw, kwdef=kwdef, varkw=varkw, kind=kind,
                 defaults=defaults, kwdefaults=kwdefaults,
+                nposonly=r.choice([0, 0, 0, 0, 1, 2]),     # leading positional-only parameters (`def f(x, y, /, z)`), capped at npos
                 named_inst=r.random() < 0.3,     # a callable instance that carries a __name__ (as after functools.update_wrapper)
                 falsy=r.random() < 0.3,     # the instance (methods, callable instances) is falsy: `bool(inst)` is False
                 p_npos=r.choice([0, 1, 1, 2]), p_kw=r.random() < 0.5, p_kwname=r.choice(PNAMES + KWONLY + ['q']),
@@ -71,6 +72,8 @@ def build_callable(prog):
             params.append('%s=_d%d' % (n, i))
         else:
             params.append(n)
+    npo = min(prog.get('nposonly', 0), prog['npos'])
+    if npo: params.insert(npo, '/')
     if prog['varargs']: params.append('*args')
     elif prog['nkw']: params.append('*')
     for i in range(prog['nkw']):
@@ -84,10 +87,15 @@ def build_callable(prog):
     kind = prog['kind']
     inst = None
     ns['_calls'] = CALLS
+    # the binding oracle: a twin with the same parameter list that returns what CPython bound (inspect.Signature.bind wrongly
+    # rejects a keyword that shares the name of a positional-only parameter and belongs in **kw)
+    own = params if kind in ('func', 'partial', 'wrapped') else ['self'] + params
+    exec('def probe(%s): return dict(locals())\n' % ', '.join(own), ns)
     if kind in ('func', 'partial', 'wrapped'):
         src = 'def target(%s):\n    _calls.append(1); return 0\n' % ', '.join(params)
         exec(src, ns)
         f = ns['target']
+        f.__probe__ = ns['probe']
         if kind == 'wrapped':
             # a functools.wraps wrapper whose own parameters differ from those of the function it wraps: the callable handed to
             # klepto is the wrapper, and it is the wrapper's parameters that a call binds
@@ -99,6 +107,7 @@ def build_callable(prog):
         src = 'class C(object):\n    def %s(%s):\n        _calls.append(1); return 0\n' % (meth, ', '.join(['self'] + params))
         if prog.get('falsy'): src += '    def __len__(self): return 0\n'
         exec(src, ns)
+        getattr(ns['C'], meth).__probe__ = ns['probe']
         inst = ns['C']()
         if kind == 'callable' and prog.get('named_inst'):
             inst.__name__ = 'target'; src += '# inst.__name__ = "target"\n'
@@ -127,7 +136,11 @@ def describe(f, I):
         j = i - (len(spec.args) - nd)
         pos.append([I(n), I(spec.defaults[j]) if j >= 0 else None])
     kwo = [[I(n), I(spec.kwonlydefaults[n]) if spec.kwonlydefaults and n in spec.kwonlydefaults else None] for n in spec.kwonlyargs]
-    return dict(pos=pos, varargs=spec.varargs is not None, kwonly=kwo, varkw=spec.varkw is not None,
+    try:
+        npo = sum(1 for q in inspect.signature(getattr(g, '__func__', g), follow_wrapped=False).parameters.values() if q.kind == q.POSITIONAL_ONLY)
+    except (TypeError, ValueError):
+        npo = 0
+    return dict(nposonly=npo, pos=pos, varargs=spec.varargs is not None, kwonly=kwo, varkw=spec.varkw is not None,
                 pArgs=[I(a) for a in pargs], pKwds=[[I(k), I(v)] for k, v in pkw.items()],
                 bound=bool(inspect.ismethod(g) and g.__self__ is not None))
 
@@ -151,20 +164,37 @@ def gen_call(r, prog, malformed=False):
     return args, kw
 
 
+def sbind(sig, a, k):
+    """inspect.Signature.bind, repaired: a keyword that shares the name of a positional-only parameter is an ordinary extra
+    keyword when the signature has **kw (CPython accepts the call; inspect raises)"""
+    try:
+        return sig.bind(*a, **k)
+    except TypeError:
+        po = [p.name for p in sig.parameters.values() if p.kind == p.POSITIONAL_ONLY]
+        vk = [p.name for p in sig.parameters.values() if p.kind == p.VAR_KEYWORD]
+        moved = {n: k[n] for n in k if n in po}
+        if not moved or not vk: raise
+        ba = sig.bind(*a, **{n: v for n, v in k.items() if n not in moved})
+        extra = dict(ba.arguments.get(vk[0], {})); extra.update(moved)
+        ba.arguments[vk[0]] = extra
+        return ba
+
+
 def respell(r, f, args, kw, inst_first):
     """other spellings of the same call: positional <-> keyword, keyword order, defaults spelled out.
     Returns a list of (args, kw) that CPython binds identically (oracle: inspect.signature)."""
     try:
         sig = inspect.signature(f, follow_wrapped=False)
-        ba = sig.bind(*args, **kw)
+        ba = sbind(sig, args, kw)
         full_bind(f, args, kw)
     except (TypeError, ValueError):
         return []
     out = []
     params = list(sig.parameters.values())
-    # spell positionals as keywords from some point on
-    pos_names = [p.name for p in params if p.kind == p.POSITIONAL_OR_KEYWORD]
-    for cut in range(len(args) + 1):
+    # spell positionals as keywords from some point on (positional-only parameters cannot be renamed)
+    npo = sum(1 for p in params if p.kind == p.POSITIONAL_ONLY)
+    pos_names = [p.name for p in params if p.kind in (p.POSITIONAL_ONLY, p.POSITIONAL_OR_KEYWORD)]
+    for cut in range(npo, len(args) + 1):
         if cut > len(pos_names): continue
         if len(args) > len(pos_names): break        # varargs in use: positionals cannot be renamed
         if inst_first and cut == 0: continue
@@ -175,7 +205,7 @@ def respell(r, f, args, kw, inst_first):
             k2[pos_names[i]] = args[i]
         if okk: out.append((a2, k2))
     # spell out defaults
-    ba2 = sig.bind(*args, **kw); ba2.apply_defaults()
+    ba2 = sbind(sig, args, kw); ba2.apply_defaults()
     k3 = dict(kw)
     for p in params:
         if p.kind in (p.POSITIONAL_OR_KEYWORD, p.KEYWORD_ONLY) and p.default is not p.empty and p.name not in ba.arguments:
@@ -189,7 +219,7 @@ def respell(r, f, args, kw, inst_first):
     res = []
     for a2, k2 in out:
         try:
-            b2 = sig.bind(*a2, **k2); b2.apply_defaults()
+            b2 = sbind(sig, a2, k2); b2.apply_defaults()
             full_bind(f, a2, k2)
         except (TypeError, ValueError):
             continue
@@ -253,6 +283,18 @@ def full_bind(f, args, kw):
     if inspect.ismethod(g):
         pre = (g.__self__,); g = g.__func__
     sig = inspect.signature(g, follow_wrapped=False)
+    probe = getattr(g, '__probe__', None)
+    if probe is not None:
+        loc = probe(*(pre + tuple(pargs) + tuple(args)), **dict(pkw, **kw))      # raises TypeError exactly when the call would
+        named, epos, ekw = {}, [], {}
+        for name, p in sig.parameters.items():
+            if p.kind == p.VAR_POSITIONAL: epos = list(loc[name])
+            elif p.kind == p.VAR_KEYWORD: ekw = dict(loc[name])
+            else: named[name] = loc[name]
+        if not any(p.kind == p.POSITIONAL_ONLY for p in sig.parameters.values()):
+            ba = sig.bind(*(pre + tuple(pargs) + tuple(args)), **dict(pkw, **kw)); ba.apply_defaults()   # second oracle, where it is right
+            assert all(ba.arguments[n] is named[n] or ba.arguments[n] == named[n] for n in named), (ba.arguments, named)
+        return named, epos, ekw
     ba = sig.bind(*(pre + tuple(pargs) + tuple(args)), **dict(pkw, **kw))
     ba.apply_defaults()
     named, epos, ekw = {}, [], {}
